@@ -42,7 +42,8 @@ def run(ctx):
                               "c05_cached_no_write", "c05_cached_no_cross_user", "c05_cached_expired", "c05_old_cached_totp_refuted",
                               "c05_profile_exact", "c05_profile_save", "c05_profile_order", "c05_profile_users", "c05_like_lookup_refuted",
                               "c05_old_poll_refuted", "c05_old_totp_replay_refuted", "c05_old_challenge_refuted", "c05_old_cert_cookie_refuted",
-                              "c05_cookie_expired", "c05_first_cookie_refuted", "c05_old_vip_expiry_refuted"])],
+                              "c05_cookie_expired", "c05_first_cookie_refuted", "c05_old_vip_expiry_refuted",
+                              "c05_address_irrelevant", "c05_address_run", "c05_totp_guard_once", "c05_totp_guard_once_nth", "c05_guard_by_address_refuted"])],
         harness=("TestVerif_C05", ["kmd/common.go", "kmd/creds.go", "kmd/consts.go", "kmd/c05.go"]),
         cases=("CasesC05.v", [("c05_mismatches", "per-step (success, subject, level, iat, exp, id of the one-time value handed out) of every history: real handlers = Model.Session over the profile table of Model.Profiles")], "CasesC05.idx"),
         trusted=["external verifiers are environment: the fake VIP endpoint, the TOTP algorithm (pquerna/otp), ECDSA / the U2F and WebAuthn libraries decide whether a presented value is right; the model carries their answer and whom it is about",
